@@ -317,7 +317,7 @@ pub fn oracle_client(np: &NetPlan, o: &MuxOutcome) -> Vec<Violation> {
     let at_b0 = h1_backend_requests(o, c0);
     if let Some(m) = adv_mcs { if m != np.h2.max_streams && matches!(ca.kind, Kind::TooManyStreams { .. }) { v.push(Violation::new("advertised_limit_mismatch", "max_concurrent_streams".to_string(), format!("sozu advertised SETTINGS_MAX_CONCURRENT_STREAMS {m}, configured h2_max_concurrent_streams {}", np.h2.max_streams))); } }
     if let Some(m) = adv_hls { if m != np.h2.header_list && matches!(ca.kind, Kind::Oversized { .. }) { v.push(Violation::new("advertised_limit_mismatch", "max_header_list_size".to_string(), format!("sozu advertised SETTINGS_MAX_HEADER_LIST_SIZE {m}, configured h2_max_header_list_size {}", np.h2.header_list))); } }
-    if let Kind::TooManyStreams { extra, hpack_probe: true } = &ca.kind {
+    if let Kind::TooManyStreams { extra, hpack_probe: true, .. } = &ca.kind {
         // RFC 9113 §4.3: the field block of a refused stream still updates the HPACK state
         let total = (adv_mcs.unwrap_or(np.h2.max_streams) + extra) as usize;
         if abuse_streams.len() > total {
@@ -327,6 +327,12 @@ pub fn oracle_client(np: &NetPlan, o: &MuxOutcome) -> Vec<Violation> {
                 v.push(Violation::new("valid_input_rejected", format!("hpack_state|{feature}"), format!("a request that refers to a dynamic-table entry inserted by the field block of a refused stream: status {:?} rst {:?} goaways {:?}", s.status, s.recv_rst.map(ecode_name), rec.goaways.iter().map(|g| ecode_name(g.code)).collect::<Vec<_>>())));
             }
         }
+    }
+    // a body that follows a request sozu refused with RST_STREAM was in flight before the client could see the reset:
+    // having chosen the stream error, sozu must be prepared for those frames (RFC 9113 5.1) and not end the connection
+    if let Kind::TooManyStreams { with_body: true, .. } = &ca.kind {
+        let refused_by_rst = rec.streams.values().any(|s| s.recv_rst == Some(7));
+        if refused_by_rst { if let Some(g) = view.error_goaway() { v.push(Violation::new("reset_stream_followup_killed_connection", feature.to_string(), format!("sozu refused a stream with RST_STREAM(REFUSED_STREAM) and then ended the connection with GOAWAY({}) when the request's DATA frame arrived", ecode_name(g.code)))); } }
     }
     if let Kind::TooManyStreams { .. } = &ca.kind {
         let n = at_b0.iter().filter(|m| m.target().starts_with("/mcs/")).count();
